@@ -2,6 +2,7 @@ import Model.TypeStr
 import Model.FrameCrash
 import Model.RowsCrash
 import Model.Dispatch
+import Model.CrashValue
 import Driver.Util
 namespace Driver.C05
 open Util
@@ -131,7 +132,11 @@ def step (fx : Bool) (ws : List String) : Bool × String :=
            -- disp / beh / disparms / dispctx / dispsites / dispkinds / dispfact / e2e: Model/Dispatch.lean
            match Dispatch.answerFx fx ws with
            | some a => a
-           | none => "bad-op")
+           | none =>
+             -- val <proto> <type> <dest> <hex|nil|->: Model/CrashValue.lean
+             match CrashValue.answerFx fx ws with
+             | some a => a
+             | none => "bad-op")
 
 def init : Bool := false
 end Driver.C05
